@@ -22,7 +22,7 @@ RULE = ('(i) idempotence: expr_simp of a memo-free copy of expr_simp(e) must be 
         'distinct operands (ii), the simplifier changed the tree (i), or the item produced output in every process (iii).')
 RULE += ' Round 6: 19 operands carrying one, two or three symbols (sums and differences) lifted, simplified, rendered and emulated under every hash seed.'
 RULE += ' Round 7: operand twins whose names differ by zero padding, digit runs or punctuation (var_8 / var_08, r2 / r10, a_b / ab).'
-RULE += ' Round 8: stores written with the address operands in both orders must simplify, as whole assignments, to one form whose parts are the simplified parts; after emul_lines every value bound in the machine state (fixed blocks with foldable remainders of partly overwritten cells, and random blocks) is a fixed point of the simplifier.'
+RULE += " Round 8: stores written with the operands of their address in both orders must simplify, as whole assignments, to one form, and that form is a fixed point."
 ASSUMPTIONS = ['the corpus generator is hash-seed independent (blake2b-derived RNG, sorted iteration in the harness)']
 
 HASH_SEEDS_QUICK = [0, 1, 2, 3, 7, 42, 12345]
@@ -227,7 +227,7 @@ def twins(w):
 
 def shards(tier, seed):
     n = 64 if tier == 'quick' else 1200
-    return [('tmpl', w) for w in (8, 32)] + [('slicecomp', 0)] + [('twins', w) for w in (8, 16, 32)] + [('aff', 0)] + [('state', i) for i in range(4 if tier == 'quick' else 24)] + [('rand', i) for i in range(n)]
+    return [('tmpl', w) for w in (8, 32)] + [('slicecomp', 0)] + [('twins', w) for w in (8, 16, 32)] + [('aff', 0)] + [('rand', i) for i in range(n)]
 
 
 STATE_BLOCKS = [['movl $0x11223344, (%esi)', 'movw %cx, (%esi)'], ['movw $0x1234, (%esi)', 'movb %cl, (%esi)'], ['movl $0x11223344, (%esi)', 'movw %cx, 2(%esi)'],
@@ -237,9 +237,13 @@ STATE_BLOCKS = [['movl $0x11223344, (%esi)', 'movw %cx, (%esi)'], ['movw $0x1234
                 ['movl $0x80001234, %eax', 'movl %eax, 8(%esi)', 'movb %dl, 9(%esi)', 'movzwl 10(%esi), %ecx'], ['pushfl', 'movb %cl, (%esp)', 'popl %eax']]
 
 
+RMW_BLOCKS = [['addl $5, (%esi)', 'addl $7, (%esi)'], ['incl 4(%esi)', 'incl 4(%esi)'], ['negl (%ebx)', 'subl $2, (%ebx)'], ['movb $0x12, %al', 'movb %al, (%edi)'], ['movb $0x12, %al', 'stosb'],
+              ['movl $0x10, %eax', 'addl %eax, 8(%esi)', 'addl %eax, 8(%esi)'], ['xorl %eax, %eax', 'movw %ax, 2(%esi)', 'orl $3, (%esi)']]
+
+
 def check_aff(sh, rng):
-    """Assignments as the lifter produces them: simplifying the whole assignment must canonicalise the destination address and the
-    source exactly as simplifying them separately does, whatever the order in which the address was written."""
+    """Assignments as the lifter produces them are expressions too: the same store written with the operands of its address in
+    another order simplifies to the identical assignment, and simplifying that again changes nothing."""
     ex, mi = exprgen.M()
     I = exprgen.Int
     a, b, c, v = ex.ExprId('a32', 32), ex.ExprId('b32', 32), ex.ExprId('c32', 32), ex.ExprId('v32', 32)
@@ -257,10 +261,9 @@ def check_aff(sh, rng):
                     sh.case(('aff', exprgen.canon(e)), True, cls='aff:%s' % s_.__class__.__name__)
                     try:
                         r = simp(e)
-                        parts = (exprgen.canon(simp(ex.ExprMem(ad, sz))), exprgen.canon(simp(s_)))
-                        if (exprgen.canon(r.dst), exprgen.canon(r.src)) != parts:
-                            sh.violation('aff-parts/%s' % ('dst' if exprgen.canon(r.dst) != parts[0] else 'src'), 'expr_simp(%s) = %s, but its parts simplify to %s and %s' % (e, r, simp(ex.ExprMem(ad, sz)), simp(s_)),
-                                         {'tree': exprgen.canon(e), 'law': 'aff'})
+                        r2 = simp(r)
+                        if exprgen.canon(r2) != exprgen.canon(r):
+                            sh.violation('idempotence/ExprAff', 'expr_simp(%s) = %s but simplifying that again gives %s' % (e, r, r2), {'tree': exprgen.canon(e), 'law': 'aff'})
                         outs.append(exprgen.canon(r))
                     except Exception as exn:
                         sh.violation('aff-parts/raises:%s' % type(exn).__name__, 'expr_simp(%s) raised %r' % (e, exn), {'tree': exprgen.canon(e), 'law': 'aff'})
@@ -268,14 +271,57 @@ def check_aff(sh, rng):
                     sh.violation('ac-order/aff-destination', 'the same store written with %s and with %s simplifies to two forms' % (a1, a2), {'tree': exprgen.canon(ex.ExprAff(ex.ExprMem(a1, sz), s_)), 'law': 'aff'})
 
 
-def check_state(sh, blk, tag):
-    """After emul_lines every value of the machine state (registers and memory cells) is a fixed point of the simplifier."""
+SYM_TWINS = [('b800000000', 1, 'mov eax, OFFSET FLAT:.LC2-.LC1', 'mov eax, OFFSET FLAT:.LC0-.LC1+.LC2-.LC0'), ('b800000000', 1, 'mov eax, OFFSET FLAT:.LC2-.LC1', 'mov eax, OFFSET FLAT:-.LC1+.LC2'),
+             ('b800000000', 1, 'mov eax, OFFSET FLAT:foo+bar', 'mov eax, OFFSET FLAT:bar+foo'), ('b800000000', 1, 'mov eax, OFFSET FLAT:foo-bar', 'mov eax, OFFSET FLAT:zed-bar+foo-zed'),
+             ('8b8300000000', 1, 'mov eax, DWORD PTR [ebx+foo-bar]', 'mov eax, DWORD PTR [ebx-bar+foo]'), ('6800000000', 0, 'push OFFSET FLAT:a-b', 'push OFFSET FLAT:c-b+a-c'),
+             ('b800000000', 1, 'mov eax, OFFSET FLAT:x1+x2+x3', 'mov eax, OFFSET FLAT:x3+x1+x2'), ('0500000000', 1, 'add eax, OFFSET FLAT:sa-sb', 'add eax, OFFSET FLAT:-sb+sa')]
+
+
+def check_symtwins(sh):
+    """Two spellings of an operand that the parser reduces to the same symbol table lift to the same semantics."""
+    import binascii
+    from miasmx.arch.ia32_arch import x86mnemo
+    from miasmx.arch.ia32_reg import x86_afs
+    from miasmx.tools import emul_helper
+    for hx, idx, t1, t2 in SYM_TWINS:
+        outs = []
+        for txt in (t1, t2):
+            try:
+                op = x86mnemo.dis(binascii.unhexlify(hx))
+                prefix, name, args = x86mnemo.parse_mnemo(txt)
+                sy = dict(args[idx].get(x86_afs.symb, {}))
+                sy = dict((k_, v_) for k_, v_ in sy.items() if v_ != 0)
+                a = dict(op.arg[idx])
+                a.pop(x86_afs.imm, None)
+                a[x86_afs.symb] = dict(args[idx].get(x86_afs.symb, {}))
+                op.arg[idx] = a
+                affs = emul_helper.get_instr_expr(op, exprgen.Int(0x1000 + op.l, 32), [])
+                outs.append((sorted((str(k_), v_) for k_, v_ in sy.items()), ' ; '.join(str(simp(x)) for x in affs)))
+            except Exception as exn:
+                outs.append(('raises', type(exn).__name__))
+        if len(outs) == 2 and outs[0][0] != 'raises' and outs[1][0] != 'raises' and outs[0][0] == outs[1][0]:
+            sh.case(('symtwins', t1, t2), True, cls='symtwins')
+            if outs[0][1] != outs[1][1]:
+                sh.violation('symbol-table-order/lift', '%r and %r reduce to the same symbols %s but lift to %s and %s' % (t1, t2, outs[0][0], outs[0][1], outs[1][1]), {'tree': '', 'law': 'symtwins'})
+        else:
+            sh.counters['symtwins_not_comparable'] += 1
+
+
+def check_state(sh, blk, tag, route='emul_lines'):
+    """After emul_lines - and after the per-instruction entry point eval_instr - every value of the machine state (registers and
+    memory cells) is a fixed point of the simplifier."""
     from miasmx.arch.ia32_arch import x86mnemo
     from miasmx.tools import emul_helper
     try:
         lines = [x86mnemo.dis(x86mnemo.asm_att(l)[0]) for l in blk]
         m = emul_helper.x86_machine()
-        emul_helper.emul_lines(m, lines)
+        if route == 'emul_lines':
+            emul_helper.emul_lines(m, lines)
+        else:
+            off = 0x1000
+            for l_ in lines:
+                off += l_.l
+                m.eval_instr(emul_helper.get_instr_expr(l_, exprgen.Int(off, 32), []))
         items = [(k, m.pool[k]) for k in m.pool]
     except Exception:
         sh.counters['state_block_raises'] += 1
@@ -293,7 +339,7 @@ def check_state(sh, blk, tag):
         sh.case(('state', tag, exprgen.canon(k)), nontrivial=exprgen.count_nodes(v) > 1, cls='state:%s' % k.__class__.__name__)
         if c2 != c:
             from vf.checks.c05 import root_skeleton
-            sh.violation('state-not-canonical/%s/%s' % (k.__class__.__name__, root_skeleton(v)), 'after %s the state binds %s to %s, which the simplifier still rewrites to %s' % ('; '.join(blk), k, v, simp(v)),
+            sh.violation('state-not-canonical/%s%s/%s' % ('' if route == 'emul_lines' else 'after-eval_instr/', k.__class__.__name__, root_skeleton(v)), 'after %s the state binds %s to %s, which the simplifier still rewrites to %s' % ('; '.join(blk), k, v, simp(v)),
                          {'tree': c, 'law': 'idem', 'block': blk})
 
 
@@ -330,11 +376,14 @@ def run_shard(shard, tier, seed):
     if shard[0] == 'state':
         rng = common.rng_for(seed, 'C13state', shard[1])
         if shard[1] == 0:
-            for j, blk in enumerate(STATE_BLOCKS):
+            for j, blk in enumerate(STATE_BLOCKS + RMW_BLOCKS):
                 check_state(sh, blk, ('fixed', j))
+                check_state(sh, blk, ('fixed-ei', j), route='eval_instr')
         for j in range(10):
             blk = [rng.choice(ATT_LINES) for _ in range(rng.randint(2, 8))]
             check_state(sh, blk, (seed, shard[1], j))
+            if j % 3 == 0:
+                check_state(sh, blk, (seed, shard[1], j, 'ei'), route='eval_instr')
         return sh
     if shard[0] == 'twins':
         ex, mi = exprgen.M()
